@@ -51,6 +51,19 @@ STRENGTHENED = {
     "C19-m5": "missed at first (the workload named a wallet where the instruction wants a token account, so no destination was ever set); workload and monitor corrected, a foreign group's admin tries to re-point the destination",
     "C19-m6": "missed at first (the rewards mint was always a plain SPL mint); the admin workload now also uses Token-2022 rewards mints with and without a transfer fee",
     "C20-m6": "missed at first; acceptances explainable only by pass-through collateral above the conservative adjusted price are attributed to C20",
+    "C02-m7": "inconclusive at first (a floor missed); the C02 / C16 storms got liquidators that owe the collateral asset, so that the seized collateral nets against a debt",
+    "C04-m7": "missed at first; staked-collateral rounds with small stake pools, where the pool's non-redeemable lamports matter",
+    "C05-m8": "missed at first (the reference health carries an error band and cannot tell 'unchanged' from 'better by less than the band'); committed liquidations are bracketed by two simulated health pulses and the program's own maintenance health must be strictly greater, and a directed scenario sits on the flat boundary (collateral weight = relief share x debt weight)",
+    "C06-m7": "missed at first (no receivership in the storms); storm steps now include receivership brackets some time after the banks were last touched",
+    "C07-m8": "missed at first (exact equality falls inside the monitor's rounding band); a bankruptcy that leaves the share value at zero while deposit shares exist must leave the bank killed, and the wipe-out scenario reaches exact equality",
+    "C08-m7": "missed at first; bank flags outside the two emissions bits may change only under the group admin's signature",
+    "C08-m8": "missed at first; `propagate_staked_settings` is a matrix case, with the foreign group presented together with its own settings account",
+    "C09-m7": "missed at first; the direct rig judges the venue adapters (Pyth and Switchboard variants) in all six price variants against the shared reference",
+    "C12-m7": "missed at first (forced withdrawals were always by amount); a bracket that takes a whole position worth more than the daily limit with withdraw-all",
+    "C14-m7": "missed at first; a second pause is propagated to a group that never heard the first one had ended",
+    "C15-m7": "missed at first (the C15 chain engine had no users); a small market whose users probe every gated instruction after each step, refusals judged against the group's cached pause",
+    "C19-m7": "missed at first; the global fee wallet is moved without propagation and fees are collected towards the old and the new wallet",
+    "C19-m8": "missed at first; a receiver tries to claim the account's rewards inside a receivership bracket",
     "V4-m2": "caught once every gated instruction (not only deposit) is probed right after the pause expiry",
 }
 def title(d):
@@ -79,9 +92,9 @@ def row(d):
     c = m.get("confirmed")
     conf = "yes" if c and c.get("demo_passes_on_unchanged_tree") and c.get("demo_fails_with_change") and c["suite_with_change"]["marginfi_lib_164_pass"] else ("n/a" if not c else "NO")
     return sid, title(d), conf, out, note
-print("### 13.1 Changes written by independent sub-agents, four rounds: -m1/-m2 first, -m3/-m4 third, -m5/-m6 fourth (confirmed = demo passes on the unchanged tree, fails with the change, suite unchanged)\n")
+print("### 13.1 Changes written by independent sub-agents, six rounds: -m1/-m2 first, -m3/-m4 third, -m5/-m6 fourth, -m7/-m8 fifth, -m9/-m10 sixth (confirmed = demo passes on the unchanged tree, fails with the change, suite unchanged)\n")
 print("| id | change | confirmed | caught by (first signature) | note |\n|---|---|---|---|---|")
-for d in sorted(glob.glob(f"{R}/C??-m?")):
+for d in sorted(glob.glob(f"{R}/C??-m*"), key=lambda x: (os.path.basename(x)[:3], int(os.path.basename(x).split("-m")[1]))):
     print("| " + " | ".join(row(d)) + " |")
 print("\n### 13.1b Second round: independent sub-agents told to place the change in the pass-through (Kamino / Solend / Drift) code (V1 = C20, V2 = C08, V3 = C04, V4 = C14)\n")
 print("| id | change | confirmed | caught by (first signature) | note |\n|---|---|---|---|---|")
